@@ -78,8 +78,9 @@ func (r *recorder) HandleMessage(ctx context.Context, p client.MessagePayload) {
 // the later handlers observe while an update is being sent can be scripted.
 type sendGate struct {
 	mu      sync.Mutex
-	armed   bool
-	txid    bitcoin.Hash32
+	armed    bool
+	hdrArmed bool
+	txid     bitcoin.Hash32
 	reached chan struct{}
 	resume  chan struct{}
 }
@@ -115,7 +116,30 @@ func (g *sendGate) HandleTxUpdate(ctx context.Context, u *client.TxUpdate) {
 		}
 	}
 }
-func (g *sendGate) HandleHeaders(ctx context.Context, h *client.Headers)             {}
+func (g *sendGate) armHeaders() (<-chan struct{}, chan<- struct{}) {
+	g.mu.Lock()
+	defer g.mu.Unlock()
+	g.hdrArmed = true
+	g.reached, g.resume = make(chan struct{}), make(chan struct{})
+	return g.reached, g.resume
+}
+
+// HandleHeaders: when armed, holds the block announcement (ProcessBlock is then inside the block, holding the tx
+// repository's lock, before it looks at the block's transactions)
+func (g *sendGate) HandleHeaders(ctx context.Context, h *client.Headers) {
+	g.mu.Lock()
+	hit := g.hdrArmed
+	g.hdrArmed = false
+	reached, resume := g.reached, g.resume
+	g.mu.Unlock()
+	if hit {
+		close(reached)
+		select {
+		case <-resume:
+		case <-time.After(5 * time.Second):
+		}
+	}
+}
 func (g *sendGate) HandleInSync(ctx context.Context)                                  {}
 func (g *sendGate) HandleMessage(ctx context.Context, p client.MessagePayload)        {}
 
@@ -375,8 +399,13 @@ func runTxFlow(c *Case) ([]Obs, any) {
 	f := newFlowNode(store, bu, tu, delay, 0)
 	ctx := f.ctx
 	var result []Obs
+	wedged := false // two threads of the node wait for each other: nothing more can be run on it
 	for _, raw := range c.Ops {
 		op := decodeOp(raw)
+		if wedged {
+			result = append(result, Obs{-9})
+			continue
+		}
 		obs := guard(func() Obs {
 			switch op.Name {
 			case "tx": // txid src(0 trusted, 1 untrusted, 2 local)
@@ -695,6 +724,84 @@ func runTxFlow(c *Case) ([]Obs, any) {
 					}
 				}
 				return append(Obs{OK, 1, b2i(berr != nil), b2i(herr != nil)}, f.encEvents(f.rec.take(), false)...)
+			case "race_block_conflict": // id prev [txids] inject src : while ProcessBlock is inside the block (announcement being
+				// sent, tx repository locked) the tx thread handles tx `inject` (e.g. a double spend of a tx of the block)
+				var txs []*wire.MsgTx
+				var hashes []bitcoin.Hash32
+				for _, t := range op.Ints(2) {
+					tx, ok := tu.txs[t]
+					if !ok {
+						panic(harnessErr("undeclared tx in block"))
+					}
+					txs = append(txs, tx)
+					hashes = append(hashes, *tx.TxHash())
+				}
+				root := merkleRoot(hashes)
+				hdr := bu.Header(op.Int(0), op.Int(1), 1400000000+op.Int(0)*600, &root)
+				blk := &txBlock{header: *hdr, txs: txs, valid: true}
+				cx, ok := tu.txs[op.Int(3)]
+				if !ok {
+					panic(harnessErr("undeclared tx"))
+				}
+				ctx2 := ctx
+				reachedCh, resume := f.gate.armHeaders()
+				bdone := make(chan error, 1)
+				go func() { bdone <- f.node.ProcessBlock(ctx2, blk) }()
+				reached := false
+				var berr error
+				bfin := false
+				select {
+				case <-reachedCh:
+					reached = true
+				case berr = <-bdone:
+					bfin = true
+				case <-time.After(2 * time.Second):
+				}
+				cdone := make(chan error, 1)
+				go func() {
+					var err error
+					if op.Int(4) == 0 {
+						_, err = f.node.VerifHandlers()[wire.CmdTx].Handle(ctx2, cx)
+					} else {
+						f.ustate.SetVerified()
+						_, err = f.untrust[wire.CmdTx].Handle(ctx2, cx)
+					}
+					if err == nil {
+						err = f.node.VerifDrainTxs(ctx2)
+					}
+					cdone <- err
+				}()
+				var herr error
+				hfin := false
+				select {
+				case herr = <-cdone:
+					hfin = true
+				case <-time.After(300 * time.Millisecond): // it waits for the block (the tx repository's lock)
+				}
+				if reached {
+					close(resume)
+				}
+				stuck := int64(0)
+				if !bfin {
+					select {
+					case berr = <-bdone:
+					case <-time.After(4 * time.Second):
+						stuck |= 1
+					}
+				}
+				if !hfin {
+					select {
+					case herr = <-cdone:
+					case <-time.After(4 * time.Second):
+						stuck |= 2
+					}
+				}
+				if stuck != 0 {
+					// the two threads wait for each other: nothing more can be run on this node
+					wedged = true
+					return Obs{OK, b2i(reached), 2, stuck}
+				}
+				return append(Obs{OK, b2i(reached), b2i(berr != nil), b2i(herr != nil)}, f.encEvents(f.rec.take(), false)...)
 			case "delaycheck":
 				f.node.VerifDelayCheck(ctx)
 				return append(Obs{OK}, f.encEvents(f.rec.take(), true)...)
